@@ -132,8 +132,21 @@ var valueExprs = []string{"xs", "ss", "is", "fs", "i64", "ids", "names", "lmt", 
 
 func snapshot(v interface{}) string {
 	var b strings.Builder
+	b.Grow(8192)
 	snap(&b, reflect.ValueOf(v), map[uintptr]bool{}, 0)
 	return b.String()
+}
+
+// typeName is reflect.Type.String, remembered (each worker is single-threaded)
+var typeNames = map[reflect.Type]string{}
+
+func typeName(t reflect.Type) string {
+	n, ok := typeNames[t]
+	if !ok {
+		n = t.String()
+		typeNames[t] = n
+	}
+	return n
 }
 
 func snap(b *strings.Builder, v reflect.Value, seen map[uintptr]bool, depth int) {
@@ -169,7 +182,12 @@ func snap(b *strings.Builder, v reflect.Value, seen map[uintptr]bool, depth int)
 			b.WriteString(v.Type().String() + "(nil)")
 			return
 		}
-		fmt.Fprintf(b, "%s(len=%d,cap=%d)[", v.Type(), v.Len(), v.Cap())
+		b.WriteString(typeName(v.Type()))
+		b.WriteString("(len=")
+		b.WriteString(strconv.Itoa(v.Len()))
+		b.WriteString(",cap=")
+		b.WriteString(strconv.Itoa(v.Cap()))
+		b.WriteString(")[")
 		full := v.Slice(0, v.Cap())
 		for i := 0; i < full.Len(); i++ {
 			if i == v.Len() {
@@ -180,7 +198,8 @@ func snap(b *strings.Builder, v reflect.Value, seen map[uintptr]bool, depth int)
 		}
 		b.WriteString("]")
 	case reflect.Array:
-		fmt.Fprintf(b, "%s[", v.Type())
+		b.WriteString(typeName(v.Type()))
+		b.WriteString("[")
 		for i := 0; i < v.Len(); i++ {
 			snap(b, v.Index(i), seen, depth+1)
 			b.WriteString(", ")
@@ -203,7 +222,10 @@ func snap(b *strings.Builder, v reflect.Value, seen map[uintptr]bool, depth int)
 			es = append(es, kv{kb.String(), it.Value()})
 		}
 		sort.Slice(es, func(i, j int) bool { return es[i].k < es[j].k })
-		fmt.Fprintf(b, "%s(len=%d){", v.Type(), v.Len())
+		b.WriteString(typeName(v.Type()))
+		b.WriteString("(len=")
+		b.WriteString(strconv.Itoa(v.Len()))
+		b.WriteString("){")
 		for _, e := range es {
 			b.WriteString(e.k + ": ")
 			snap(b, e.v, seen, depth+1)
@@ -211,7 +233,8 @@ func snap(b *strings.Builder, v reflect.Value, seen map[uintptr]bool, depth int)
 		}
 		b.WriteString("}")
 	case reflect.Struct:
-		fmt.Fprintf(b, "%s{", v.Type())
+		b.WriteString(typeName(v.Type()))
+		b.WriteString("{")
 		for i := 0; i < v.NumField(); i++ {
 			b.WriteString(v.Type().Field(i).Name + ": ")
 			snap(b, v.Field(i), seen, depth+1)
@@ -223,7 +246,10 @@ func snap(b *strings.Builder, v reflect.Value, seen map[uintptr]bool, depth int)
 	case reflect.Bool:
 		b.WriteString(strconv.FormatBool(v.Bool()))
 	case reflect.Int, reflect.Int8, reflect.Int16, reflect.Int32, reflect.Int64:
-		fmt.Fprintf(b, "%s(%d)", v.Type(), v.Int())
+		b.WriteString(typeName(v.Type()))
+		b.WriteString("(")
+		b.WriteString(strconv.FormatInt(v.Int(), 10))
+		b.WriteString(")")
 	case reflect.Uint, reflect.Uint8, reflect.Uint16, reflect.Uint32, reflect.Uint64, reflect.Uintptr:
 		fmt.Fprintf(b, "%s(%d)", v.Type(), v.Uint())
 	case reflect.Float32, reflect.Float64:
